@@ -76,7 +76,9 @@ func c07Run(sc *C07Scenario) (v *nodeViolation, flags map[string]bool) {
 		done := make(chan struct{})
 		go func() { n.checkTxDelays(sn.ctx); close(done) }()
 		return func() {
-			n.requestStop(sn.ctx)
+			n.lock.Lock()
+			n.stopping = true // ends the checker loop of this (finished) node object
+			n.lock.Unlock()
 			<-done
 		}
 	}
